@@ -186,8 +186,21 @@ def shard(args):
         # ---- C05: the baseline is untouched, whether the simulation succeeded or raised
         if "C05" in which and changed:
             phase = "success" if raised is None else ("refused-date" if raised in ("period", "naive-date") else "raised-during-recomputation")
+            names = {}
+            for n_, o_ in live.rs.objs.items():
+                for a_, v_ in o_.__dict__.items():
+                    names[id(v_)] = f"{n_}.{a_}"
+                    if isinstance(v_, dict):
+                        for k_, x_ in v_.items():
+                            names[id(x_)] = f"{n_}.{a_}[{getattr(k_, 'name', k_)}]"
+            def _show(d):
+                if isinstance(d, tuple) and d and d[0] == "val":
+                    return {"id": names.get(d[1], d[1]), "value": str(d[2])[:80], "anc": [names.get(x, x) for x in d[4]] if len(d) > 4 else None,
+                            "chi": [names.get(x, x) for x in d[5]] if len(d) > 5 else None}
+                return str(d)[:300]
+            diag = [{"key": list(k), "before": _show(before.get(k)), "after": _show(after.get(k))} for k in changed[:4]]
             out["violations"].append({"signature": f"C05:baseline-changed:{phase}" + (trig if phase == "success" else ""), "detail": f"simulation {labels} at {kind} ({raised}): {len(changed)}+ attributes differ, e.g. {changed[:3]}",
-                                      "replay": replay})
+                                      "replay": dict(replay, diagnosis=diag, shard_seed=seed, case_index=i)})
         if "C06" in which:
             if kind in ("first", "interior", "last") and raised == "other:TypeError":
                 out["violations"].append({"signature": "C06:simulation-raises-TypeError:no-hourly-ancestor-outside-chain",
